@@ -607,6 +607,10 @@ def _restriction_on_path(conds, u, polarity=True):
     for a, pol in true_atoms(conds):
         if pol != polarity:
             continue
+        if a[0] == 'cmp' and a[1] in ('in', 'not in') and a[3][0] in ('set', 'dict', 'setcomp') and not (a[2][0] == 'call' and a[2][1] == ('name', 'str')):
+            # a category looked up in a *set* of texts: sets find their members by hash, and a category does not hash like its text
+            # (== falls back to the text, the generated hash does not) -- the test never succeeds and restricts nothing
+            continue
         vars_, consts = set(), set()
         scan(a, vars_, consts)
         if consts == {'N', 'NP'} and len(vars_) == 1:
